@@ -258,7 +258,7 @@ def statement_end(body, mask, start):
 
 def parse_directives(lines):
     d = dict(rename=None, ret='out', requires=[], ensures=[], rewrites=[], loops={}, prologue=[], after=[],
-             epilogue=[], loopbody={}, nowrap=False, sigrewrite=[])
+             epilogue=[], loopbody={}, nowrap=False, sigrewrite=[], bytelits=False)
     cur_loop = None
     for ln in lines:
         t = ln.strip()
@@ -274,6 +274,8 @@ def parse_directives(lines):
             d['ret'] = rest
         elif kw == 'nowrap':
             d['nowrap'] = True
+        elif kw == 'bytelits':
+            d['bytelits'] = True
         elif kw == 'requires':
             d['requires'].append(rest)
         elif kw == 'ensures':
@@ -317,6 +319,38 @@ def build_fn(repo, target, d, log):
     entry = dict(file=relfile, function=qual, sha256=hashlib.sha256(orig_text.encode()).hexdigest(),
                  lines=[src.count('\n', 0, fn_kw) + 1, src.count('\n', 0, body_close) + 1], rewrites=[])
     name = qual.split('::')[-1]
+
+    # R8: every byte-string literal b"…" becomes the array literal of its decoded bytes (computed here from the
+    # literal's own text, so a changed literal changes the verified text)
+    if d['bytelits']:
+        def conv(m):
+            raw = m.group(1)
+            out = []
+            i = 0
+            while i < len(raw):
+                c = raw[i]
+                if c == '\\':
+                    e = raw[i + 1]
+                    if e == 'x':
+                        out.append(int(raw[i + 2:i + 4], 16))
+                        i += 4
+                        continue
+                    table = {'n': 10, 'r': 13, 't': 9, '\\': 92, '0': 0, '"': 34, "'": 39}
+                    if e not in table:
+                        raise LostAnchor(f'{target}: unsupported escape \\{e} in byte string literal')
+                    out.append(table[e])
+                    i += 2
+                    continue
+                if ord(c) > 127:
+                    raise LostAnchor(f'{target}: non-ASCII byte string literal')
+                out.append(ord(c))
+                i += 1
+            return '&[' + ', '.join('0x%02xu8' % b for b in out) + ']'
+        new, n = re.subn(r'b"((?:[^"\\]|\\.)*)"', conv, body)
+        if n == 0:
+            raise LostAnchor(f'{target}: bytelits requested but no byte string literal found')
+        entry['rewrites'].append(dict(rule='R8', regex='b"…"', replacement='&[decoded bytes as u8 array literal]', applications=n))
+        body = new
 
     # rewrites on the body text (code regions only are intended; regexes are written accordingly)
     for rw in d['rewrites']:
